@@ -3,10 +3,12 @@
    capacity and compressor: the report of a loaded bit-vector signal (any width >= 1) lists values of exactly the
    declared width, each with the least state kind that can hold it, and no two neighbours are equal;
    fst_writer_spec (Properties/C10.v) gives the same form for the FST path.  Plus the two facts it rests on.
-   NOT proved: reals and strings (byte-equal neighbours are dropped by load_reals / load_signal_strings), the slicing
-   path (C13); those are decided by the canonical-form monitor of the correspondence run (MANIFEST level_note). *)
+   loaded_rs_canonical gives the form for real and string signals (no two neighbours carry the same bytes, a real
+   is its 8 bytes) and slice_signal_spec (Properties/C13.v) for sliced signals (its report is `dedup` of least-kind
+   entries of the slice width).  The tie of the model to the code is the canonical-form monitor of the
+   correspondence run (MANIFEST level_note). *)
 From WV Require Import Model.Base Model.Bits Model.WaveMem Spec.TimeSpec Spec.StoreSpec
-  Proofs.BitsProofs Proofs.StoreProofs Proofs.EncoderProofs Proofs.CanonProofs.
+  Proofs.BitsProofs Proofs.StoreProofs Proofs.EncoderProofs Proofs.CanonProofs Proofs.RealStringEnc.
 Open Scope N_scope.
 
 Check loaded_signal_canonical :
@@ -35,6 +37,24 @@ Check check_states_min :
 Check from_value_least :
   forall v st, v <= 8 -> (v < 2 ^ sbits st <-> states_num (from_value v) <= states_num st).
 
+Check loaded_rs_canonical :
+  forall (parse_f64 : list byte -> option (list byte)),
+  (forall r le, parse_f64 r = Some le -> length le = 8%nat) ->
+  forall (lz_compress : list byte -> list byte) (lz_decompress : list byte -> nat -> option (list byte)),
+  (forall d n, (length d <= n)%nat -> lz_decompress (lz_compress d) n = Some d) ->
+  forall cap, 1 <= cap -> cap <= 65536 -> forall id str tpes ops e blocks ttb,
+  nth_error tpes id = Some (rs_tpe str) ->
+  Forall (rs_op_ok id str) ops ->
+  ops_cost id ops < 4294967264 ->
+  run_ops parse_f64 lz_compress cap (enc_new tpes) ops = Ok e ->
+  enc_finish lz_compress e = Ok (blocks, ttb) -> N.of_nat (length ttb) < 4294967296 ->
+  exists sig (A : list (N * list byte)),
+    load_signal lz_decompress blocks id (rs_tpe str) = Ok sig /\
+    observe_signal sig = Ok (map (fun a : N * list byte => (fst a, if str then KString else KReal, snd a)) A) /\
+    no_adjacent list_eqb None (map snd A) /\
+    (str = false -> Forall (fun a : N * list byte => length (snd a) = 8%nat) A).
+
 Print Assumptions loaded_signal_canonical.
+Print Assumptions loaded_rs_canonical.
 Print Assumptions check_states_min.
 Print Assumptions from_value_least.
